@@ -9,6 +9,7 @@ import Adsg.Proofs.Closure
 import Adsg.Proofs.Steps
 import Adsg.Proofs.ConnGraph
 import Adsg.Proofs.Design
+import Adsg.Proofs.DecodeAct
 namespace Adsg.C04
 open Adsg
 
@@ -57,5 +58,31 @@ def exP : Problem := { g := exG, conn := [exK], dvs := [⟨5, .discrete 3⟩] }
 example : nValid exP = 5 ∧ nValidFormula exP = 5 := by decide
 example : (allDesigns exP).all (validDesign exP) = true := by decide
 example : validDesign exP ⟨[some 0], [[[1]]], [some 0]⟩ = false := by decide
+
+end Adsg.C04
+
+/-! ### Part 2: every enumerated design is the decode of a vector that decoding leaves unchanged
+    (Adsg/Model/Decode.lean; helper lemmas in Adsg/Proofs/DecodeAct.lean) -/
+namespace Adsg.C04
+open Adsg
+
+/-- **Every admissible architecture is the decode of some row, and that row decodes to itself**: for
+    every enumerated design there is a vector of the declared length, inside the declared ranges,
+    which decoding (as implemented, and in the reference semantics) returns unchanged and maps to the
+    design. -/
+theorem decode_onto (P : Problem) (E : Enc) (h : EncOK P E) (d : Design) (hd : d ∈ allDesigns P) :
+    ∃ x : List Int, x.length = E.nVars P ∧ inBounds (declBounds P E) x = true ∧
+      (decode P E x).design = d ∧ (decode P E x).x = x ∧
+      (decodeRef P E x).design = d ∧ (decodeRef P E x).x = x := by
+  exact decode_onto_aux h d hd
+
+/-- Distinct fixed-point rows give distinct architectures (discrete problems: every DV node discrete,
+    so that the design records every value). -/
+theorem fixed_rows_injective (P : Problem) (E : Enc) (h : EncOK P E)
+    (hdisc : ∀ dv ∈ P.dvs, ∃ n, dv.dom = .discrete n)
+    (x y : List Int) (hx : x.length = E.nVars P) (hy : y.length = E.nVars P)
+    (hfx : (decode P E x).x = x) (hfy : (decode P E y).x = y)
+    (hd : (decode P E x).design = (decode P E y).design) : x = y := by
+  exact fixed_rows_injective_aux h hdisc x y hx hy hfx hfy hd
 
 end Adsg.C04
